@@ -208,6 +208,12 @@ func c14StmtCtxs() []c14Ctx {
 		{"select key as a, a + 'x' as b where {} != b", 'T', "NBLJ", false, 0},
 		{"select int(value) as n, n + 1 as m where m > {}", 'N', "TBLJ", false, 0},
 		{"select key as a, upper(a) as b, b + 'x' as c where c ^= {} order by c", 'T', "NBLJ", false, 0},
+		// `!` over the bare name of a select field: refused unless the field is Boolean
+		// (hole type Z: no filler counts as well typed here, only the faults are judged)
+		{"select {} as n where !n", 'Z', "NTLJ", false, 0},
+		{"select key, {} as n where key = 'a' & !n", 'Z', "NTLJ", false, 0},
+		{"select {} as n, !n as m where true", 'Z', "NTLJ", false, 0},
+		{"select {} as n where !(!n)", 'Z', "NTLJ", false, 0},
 		{"put ({}, 'v')", 0, "BLJ", false, 0},
 		{"put ('k', {})", 0, "BLJ", false, 0},
 		{"put ('a', 'b'), ('k', {})", 0, "BLJ", false, 0},
